@@ -234,3 +234,12 @@ package breaker
 //@ extern func (p Promise) Reject
 //@   ensures settled[p] == old(settled[p]) + 1
 //@   modifies settled[p]
+
+// Breaker.DoWithAcceptableCtx as an interface (what call sites outside this package rely on): one activation, the
+// acceptability predicate handed over, the result handed back
+//@ ghost var bdoCalls int
+//@ ghost var bdoAcceptable any
+//@ ghost var bdoResult error
+//@ extern func (b Breaker) DoWithAcceptableCtx
+//@   ensures bdoCalls == old(bdoCalls) + 1 && bdoAcceptable == acceptable && result == bdoResult
+//@   modifies bdoCalls, bdoAcceptable, bdoResult, calls(req)
